@@ -16,13 +16,72 @@ use std::sync::Arc;
 use vcommon::*;
 
 fn flight_round_trip(batches: Vec<RecordBatch>, max: usize, resend: bool) -> Result<Vec<RecordBatch>, FlightError> {
-    let enc = FlightDataEncoderBuilder::new()
-        .with_max_flight_data_size(max)
-        .with_dictionary_handling(if resend { DictionaryHandling::Resend } else { DictionaryHandling::Hydrate })
-        .build(futures::stream::iter(batches.into_iter().map(Ok)));
-    let data: Vec<FlightData> = futures::executor::block_on(enc.try_collect())?;
-    let dec = FlightRecordBatchStream::new_from_flight_data(futures::stream::iter(data.into_iter().map(Ok)));
-    futures::executor::block_on(dec.try_collect())
+    flight_round_trip_var(batches, max, resend, 0)
+}
+
+/// var 0: encoder -> FlightRecordBatchStream;  1: encoder -> FlightDataDecoder (DecodedPayload);
+/// 2: encoder with_schema/with_metadata/with_flight_descriptor;  3: encoder with_options (alignment 8, metadata V4);
+/// 4: utils::batches_to_flight_data -> FlightRecordBatchStream;  5: encoder -> utils::flight_data_to_batches
+fn flight_round_trip_var(batches: Vec<RecordBatch>, max: usize, resend: bool, var: usize) -> Result<Vec<RecordBatch>, FlightError> {
+    use arrow_flight::decode::{DecodedPayload, FlightDataDecoder};
+    let schema = batches[0].schema();
+    let data: Vec<FlightData> = if var == 4 {
+        arrow_flight::utils::batches_to_flight_data(&schema, batches.clone()).map_err(FlightError::Arrow)?
+    } else {
+        let mut b = FlightDataEncoderBuilder::new()
+            .with_max_flight_data_size(max)
+            .with_dictionary_handling(if resend { DictionaryHandling::Resend } else { DictionaryHandling::Hydrate });
+        if var == 2 {
+            b = b
+                .with_schema(schema.clone())
+                .with_metadata(bytes::Bytes::from_static(b"app-meta"))
+                .with_flight_descriptor(Some(arrow_flight::FlightDescriptor::new_cmd("cmd")));
+        }
+        if var == 3 {
+            b = b.with_options(arrow_ipc::writer::IpcWriteOptions::try_new(8, false, arrow_ipc::MetadataVersion::V4).unwrap());
+        }
+        let enc = b.build(futures::stream::iter(batches.clone().into_iter().map(Ok)));
+        if var == 2 && enc.known_schema().is_none() {
+            return Err(FlightError::ProtocolError("known_schema() is None after with_schema".into()));
+        }
+        let data: Vec<FlightData> = futures::executor::block_on(enc.try_collect())?;
+        if var == 2 {
+            let first = data.first().ok_or_else(|| FlightError::ProtocolError("no schema message".into()))?;
+            if &first.app_metadata[..] != b"app-meta" || first.flight_descriptor.is_none() {
+                return Err(FlightError::ProtocolError("app metadata / descriptor not on the first message".into()));
+            }
+            if data.iter().skip(1).any(|d| d.flight_descriptor.is_some()) {
+                return Err(FlightError::ProtocolError("descriptor repeated".into()));
+            }
+        }
+        data
+    };
+    match var {
+        1 => {
+            let dec = FlightDataDecoder::new(futures::stream::iter(data.into_iter().map(Ok)));
+            let items: Vec<_> = futures::executor::block_on(dec.try_collect())?;
+            let mut out = vec![];
+            let mut seen_schema = false;
+            for it in items {
+                match it.payload {
+                    DecodedPayload::Schema(_) => seen_schema = true,
+                    DecodedPayload::RecordBatch(b) => {
+                        if !seen_schema {
+                            return Err(FlightError::ProtocolError("batch before schema".into()));
+                        }
+                        out.push(b)
+                    }
+                    DecodedPayload::None => {}
+                }
+            }
+            Ok(out)
+        }
+        5 => arrow_flight::utils::flight_data_to_batches(&data).map_err(FlightError::Arrow),
+        _ => {
+            let dec = FlightRecordBatchStream::new_from_flight_data(futures::stream::iter(data.into_iter().map(Ok)));
+            futures::executor::block_on(dec.try_collect())
+        }
+    }
 }
 
 fn gen_nulls(rng: &mut Rng, n: usize) -> Option<NullBuffer> {
@@ -142,13 +201,16 @@ fn run_rtx(t: &[&str]) -> (String, Option<String>, String) {
     let max: usize = t[3].parse().unwrap();
     let allow_empty = t[4] == "1";
     let seed: u64 = t[5].parse().unwrap();
+    let var: usize = t.get(6).map(|x| x.parse().unwrap()).unwrap_or(0);
+    // batches_to_flight_data keeps dictionaries (resend semantics, no splitting); flight_data_to_batches has no dictionary support
+    let resend = if var == 4 { true } else if var == 5 { false } else { resend };
     let mut rng = Rng::new(seed ^ 0xF11687);
     let ts = types();
     let ncols = 1 + rng.usize(3);
     let fields: Vec<Field> = (0..ncols).map(|i| Field::new(format!("c{i}"), rng.pick(&ts).clone(), true)).collect();
     let schema = Arc::new(Schema::new(fields));
     let nb = 1 + rng.usize(4);
-    let mut batches = vec![];
+    let mut batches: Vec<RecordBatch> = vec![];
     let mut tags = String::new();
     for _ in 0..nb {
         let rows = if allow_empty && rng.chance(1, 3) { 0 } else { 1 + rng.usize(60) };
@@ -165,9 +227,41 @@ fn run_rtx(t: &[&str]) -> (String, Option<String>, String) {
             .collect();
         batches.push(RecordBatch::try_new(schema.clone(), cols).unwrap());
     }
-    let got = match flight_round_trip(batches.clone(), max, resend) {
+    // dictionary histories under Resend: sometimes every batch shares / extends the first batch's dictionary
+    if resend && seed % 3 != 0 {
+        for ci in 0..schema.fields().len() {
+            if let DataType::Dictionary(_, _) = schema.field(ci).data_type() {
+                let first = batches[0].column(ci).clone();
+                let d0 = first.as_any().downcast_ref::<DictionaryArray<Int32Type>>().unwrap().clone();
+                for bi in 1..batches.len() {
+                    let rows = batches[bi].num_rows();
+                    let values: ArrayRef = if seed % 3 == 1 {
+                        d0.values().clone()
+                    } else {
+                        let old = d0.values().as_any().downcast_ref::<StringArray>().unwrap();
+                        let mut v: Vec<Option<String>> = old.iter().map(|x| x.map(|s| s.to_string())).collect();
+                        v.push(Some(format!("x{bi}")));
+                        Arc::new(StringArray::from(v))
+                    };
+                    let dl = values.len();
+                    let keys = Int32Array::from((0..rows).map(|i| ((i * 7 + bi) % dl) as i32).collect::<Vec<_>>());
+                    let col: ArrayRef = Arc::new(DictionaryArray::<Int32Type>::try_new(keys, values).unwrap());
+                    let mut cols = batches[bi].columns().to_vec();
+                    cols[ci] = col;
+                    batches[bi] = RecordBatch::try_new(schema.clone(), cols).unwrap();
+                }
+            }
+        }
+    }
+    tags.push_str(&format!("fvar:{} ", var));
+    let got = match flight_round_trip_var(batches.clone(), max, resend, var) {
         Ok(g) => g,
-        Err(e) => return ("ERR:flight".into(), Some(format!("flight round trip failed: {e}")), tags),
+        Err(e) => {
+            if var == 4 && schema.fields().iter().any(|f| matches!(f.data_type(), DataType::Dictionary(_, _))) && e.to_string().contains("no dict id") {
+                tags.push_str("kf:flight-b2f-dictionary ");
+            }
+            return ("ERR:flight".into(), Some(format!("flight round trip failed: {e}")), tags);
+        }
     };
     if got.len() > batches.len() {
         tags.push_str("split ");
@@ -305,7 +399,7 @@ fn gen_case(rng: &mut Rng) -> (String, String) {
         let max = *rng.pick(&[64usize, 200, 1000, 2097152]);
         let empty = rng.chance(1, 4);
         (
-            format!("C04 rtx {} {} {} {}", if resend { "resend" } else { "hydrate" }, max, if empty { 1 } else { 0 }, rng.next_u64() >> 16),
+            format!("C04 rtx {} {} {} {} {}", if resend { "resend" } else { "hydrate" }, max, if empty { 1 } else { 0 }, rng.next_u64() >> 16, rng.usize(6)),
             format!("op:rtx dict:{} max:{} empty:{} nt", if resend { "resend" } else { "hydrate" }, max, empty),
         )
     }
